@@ -20,17 +20,19 @@ type TaskCfg struct {
 	Allow  bool     `json:"allow,omitempty"`
 	Deps   []string `json:"deps,omitempty"` // pipeline mode: stage dependencies (stage name == task name)
 	Export string   `json:"export,omitempty"`
-	Reads  string   `json:"reads,omitempty"` // name of an environment variable the last command echoes
+	Reads  string   `json:"reads,omitempty"`   // name of an environment variable the last command echoes
+	SameAs string   `json:"same_as,omitempty"` // this entry runs the very task object of the named entry once more
 }
 
 // CtxCfg describes one execution context.
 type CtxCfg struct {
-	Name   string   `json:"name"`
-	Up     []string `json:"up,omitempty"`
-	Down   []string `json:"down,omitempty"`
-	Before []string `json:"before,omitempty"`
-	After  []string `json:"after,omitempty"`
-	UpFail bool     `json:"up_fail,omitempty"`
+	Name        string   `json:"name"`
+	Up          []string `json:"up,omitempty"`
+	Down        []string `json:"down,omitempty"`
+	Before      []string `json:"before,omitempty"`
+	After       []string `json:"after,omitempty"`
+	UpFail      bool     `json:"up_fail,omitempty"`
+	UpFailFirst bool     `json:"up_fail_first,omitempty"` // with UpFail: the first up command fails (and a succeeding one follows) instead of the last
 }
 
 // Scenario is one configuration of the real-runner harness.
@@ -39,7 +41,7 @@ type Scenario struct {
 	Ctxs       []CtxCfg  `json:"ctxs,omitempty"`
 	Mode       string    `json:"mode"` // "par": one thread per task calling Run; "seq": one thread; "pipeline": through the scheduler
 	Cancellers int       `json:"cancellers,omitempty"`
-	Twice      bool      `json:"twice,omitempty"`   // each canceller calls Cancel twice in a row
+	Twice      bool      `json:"twice,omitempty"`     // each canceller calls Cancel twice in a row
 	ViaSched   bool      `json:"via_sched,omitempty"` // cancel through Scheduler.Cancel
 	CondErr    string    `json:"cond_err,omitempty"`  // pipeline mode: this stage's condition cannot be evaluated
 	Finish     bool      `json:"finish,omitempty"`    // call Finish at the end
@@ -66,11 +68,14 @@ func (s Scenario) String() string {
 		if len(t.Deps) > 0 {
 			p += "<-" + strings.Join(t.Deps, ",")
 		}
+		if t.SameAs != "" {
+			p += "[same object as " + t.SameAs + "]"
+		}
 		parts = append(parts, p)
 	}
 	r := s.Mode + ": " + strings.Join(parts, " ")
 	for _, c := range s.Ctxs {
-		r += fmt.Sprintf(" ctx %s{up:%v down:%v before:%v after:%v upfail:%v}", c.Name, c.Up, c.Down, c.Before, c.After, c.UpFail)
+		r += fmt.Sprintf(" ctx %s{up:%v down:%v before:%v after:%v upfail:%v}", c.Name, c.Up, c.Down, c.Before, c.After, map[bool]string{false: fmt.Sprint(c.UpFail), true: "first"}[c.UpFail && c.UpFailFirst])
 	}
 	if s.Cancellers > 0 {
 		r += fmt.Sprintf(" +%d canceller(s)", s.Cancellers)
@@ -105,6 +110,12 @@ func (s Scenario) shape() string {
 	}
 	if s.CondErr != "" {
 		r += ";conderr"
+	}
+	for _, t := range s.Tasks {
+		if t.SameAs != "" {
+			r += ";same-object"
+			break
+		}
 	}
 	return r
 }
